@@ -124,9 +124,21 @@ func (p *protocol) handle(connection grpc.Connection, envelope *Envelope) error 
 	return errMessageNotSupported
 }
 
+// parseRef converts a transaction reference or XOR field received from a peer.
+// A field that is not exactly hash-sized is malformed: it is refused instead of being padded or truncated into another value.
+func parseRef(field []byte) (hash.SHA256Hash, error) {
+	if len(field) != hash.SHA256HashSize {
+		return hash.EmptyHash(), fmt.Errorf("malformed reference: expected %d bytes, got %d", hash.SHA256HashSize, len(field))
+	}
+	return hash.FromSlice(field), nil
+}
+
 func (p *protocol) handleTransactionPayloadQuery(ctx context.Context, connection grpc.Connection, envelope *Envelope) error {
 	msg := envelope.GetTransactionPayloadQuery()
 	peer := connection.Peer()
+	if _, err := parseRef(msg.TransactionRef); err != nil {
+		return err
+	}
 
 	log.Logger().
 		WithFields(peer.ToFields()).
@@ -208,6 +220,9 @@ func (p *protocol) handleTransactionPayload(ctx context.Context, connection grpc
 	if len(msg.Data) == 0 {
 		return fmt.Errorf("peer does not have transaction payload (tx=%s)", ref)
 	}
+	if _, err := parseRef(msg.TransactionRef); err != nil {
+		return err
+	}
 	tx, err := p.state.GetTransaction(ctx, ref)
 	if err != nil {
 		if errors.Is(err, dag.ErrTransactionNotFound) {
@@ -272,8 +287,11 @@ func (p *protocol) handleGossip(ctx context.Context, connection grpc.Connection,
 		WithFields(connection.Peer().ToFields()).
 		Trace("Handling Gossip")
 
+	peerXor, err := parseRef(msg.XOR)
+	if err != nil {
+		return err
+	}
 	xor, clock := p.state.XOR(dag.MaxLamportClock)
-	peerXor := hash.FromSlice(msg.XOR)
 	if xor.Equals(peerXor) {
 		p.state.CorrectStateDetected()
 		return nil
@@ -282,7 +300,9 @@ func (p *protocol) handleGossip(ctx context.Context, connection grpc.Connection,
 	//
 	refs := make([]hash.SHA256Hash, len(msg.Transactions))
 	for i, bytes := range msg.Transactions {
-		refs[i] = hash.FromSlice(bytes)
+		if refs[i], err = parseRef(bytes); err != nil {
+			return err
+		}
 	}
 	if len(refs) > 0 {
 		p.gManager.GossipReceived(connection.Peer(), refs...)
@@ -351,7 +371,11 @@ func (p *protocol) handleTransactionListQuery(ctx context.Context, connection gr
 		Trace("Handling TransactionListQuery")
 
 	for i, refBytes := range msg.Refs {
-		requestedRefs[i] = hash.FromSlice(refBytes)
+		ref, err := parseRef(refBytes)
+		if err != nil {
+			return err
+		}
+		requestedRefs[i] = ref
 	}
 
 	if len(requestedRefs) == 0 {
@@ -430,10 +454,14 @@ func (p *protocol) handleState(_ context.Context, connection grpc.Connection, en
 		WithField(core.LogFieldConversationID, cid).
 		Trace("Handling State from peer")
 
+	peerXor, err := parseRef(msg.XOR)
+	if err != nil {
+		return err
+	}
 	xor, lc := p.state.XOR(dag.MaxLamportClock)
 
 	// nothing to do if peers are now synced
-	if xor.Equals(hash.FromSlice(msg.XOR)) {
+	if xor.Equals(peerXor) {
 		return nil
 	}
 
